@@ -12,7 +12,7 @@ import (
 
 func init() {
 	register("C18", &propCheck{
-		explain: "A race, a lock-order cycle or an unguarded close exists in the program text whether or not a schedule exposing it was ever run. (R18.1) guarded-by: for EVERY field of every struct type of internal/server, all accesses outside the construction phase are collected with their must-hold lockset (interprocedural, through the with*Lock wrappers and range-over-func bodies); a field that is written after construction must have one lock held at every such access (write mode for writes), unless its type is confined to one goroutine or it is in the frozen exemption table (one reason per line); (R18.1b) in-place mutated containers are only used while their lock is held; (R18.2) lock order: acquisition edges computed with MAY-hold locksets are acyclic, no lock is re-acquired while held, and no may-block operation runs while a lock may be held; (R18.3) may-panic sites are discharged by a dominating guard: close() through the extracted typestates (PauseController model from every start state, becameHealthy closed only on adding->healthy), integer % and constant indexing guarded by length facts, unchecked type assertions only in a frozen start-up table, nil-slot dereference of Service.active by 'installed => active set', WaitGroup counts matching their fan-out.",
+		explain: "A race, a lock-order cycle or an unguarded close exists in the program text whether or not a schedule exposing it was ever run. (R18.1) guarded-by: for EVERY field of every struct type of internal/server, all accesses outside the construction phase are collected with their must-hold lockset (interprocedural, through the with*Lock wrappers and range-over-func bodies); a field that is written after construction must have one lock held at every such access (write mode for writes), unless its type is confined to one goroutine or it is in the frozen exemption table (one reason per line); (R18.1b) in-place mutated containers are only used while their lock is held; (R18.2) lock order: acquisition edges computed with MAY-hold locksets are acyclic, no lock is re-acquired while held, and no may-block operation runs while a lock may be held; (R18.3) may-panic sites are discharged by a dominating guard: close() through the extracted typestates (PauseController model from every start state, becameHealthy closed only on adding->healthy), integer % and constant indexing guarded by length facts, unchecked type assertions only in a frozen start-up table, nil-slot dereference of Service.active by 'installed => active set', WaitGroup counts matching their fan-out. (R18.5) a pointer returned together with an error is nil whenever the error is not (per-function summary); callers dereference it only where the error is known nil or the pointer non-nil, also after it went round a loop.",
 		notDecided: []string{"races inside dependencies", "liveness under starvation", "panics from resource exhaustion", "happens-before through channels/WaitGroups is admitted only through the frozen table"},
 		run:        checkC18,
 	})
